@@ -133,14 +133,18 @@ def run(ctx):
 
     # ---- histories: fresh single-op references, corpus, random
     probe, pool, meta = run_impl(ctx, [[["check", "plain"]]], workers=1)
-    fresh_hist = [[[op, n]] for n in pool for op in ("check", "compile", "pycall")]
+    import time as _t
+    t_a = _t.time()
+    # a fresh interpreter per (check|compile, name); the pycall references share one fresh
+    # interpreter (a rejected call does not touch the engine)
+    fresh_hist = [[[op, n]] for n in pool for op in ("check", "compile")] + [[["pycall", n] for n in pool]]
     corpus = []
     for f in sorted((ctx.dir / "corpus").glob("*.json")):
         corpus += json.loads(f.read_text())["histories"]
-    n_rand = 60 if ctx.quick else 900
+    n_rand = 40 if ctx.quick else 700
     rand = gen_histories(r, pool, n_rand, 3, 9 if ctx.quick else 14)
     # long histories advance the counters far (digit roll-overs at 10 / 100)
-    rand += gen_histories(r, pool, 6 if ctx.quick else 60, 25, 40)
+    rand += gen_histories(r, pool, 4 if ctx.quick else 50, 25, 40)
     histories = corpus + rand
     res_all, _, _ = run_impl(ctx, fresh_hist + histories)
     fresh_res, res = res_all[:len(fresh_hist)], res_all[len(fresh_hist):]
@@ -148,7 +152,12 @@ def run(ctx):
     if harness_fail:
         ctx.report("harness", "correspondence", "impl_hist.py child failed",
                    {"first": res_all[harness_fail[0]], "count": len(harness_fail)}, found_input=False)
-    fresh = {(h[0][0], h[0][1]): x[0] for h, x in zip(fresh_hist, fresh_res) if isinstance(x, list)}
+    ctx.notes.append(f"implementation replay: {len(res_all)} interpreters in {_t.time() - t_a:.1f}s")
+    fresh = {}
+    for h, x in zip(fresh_hist, fresh_res):
+        if isinstance(x, list):
+            for o, rec in zip(h, x):
+                fresh[(o[0], o[1])] = rec
     fresh_check_ok = {n: fresh[("check", n)]["status"] == "ok" for n in pool if ("check", n) in fresh}
 
     # ---- (3) history vs fresh
@@ -216,7 +225,9 @@ def run(ctx):
                             cone_checked += 1
                             if sorted(pool[k] for k in mchk) != rec["obs"]["checked"]:
                                 bad.append(("checked_set", sorted(pool[k] for k in mchk), rec["obs"]["checked"]))
-                            if bool(mwl) != rec["obs"]["worklists_empty"]:
+                            # (compile may leave lazily discovered comptime callees queued; only
+                            #  check() guarantees empty worklists)
+                            if rec["op"] == "check" and bool(mwl) != rec["obs"]["worklists_empty"]:
                                 bad.append(("worklists_empty", bool(mwl), rec["obs"]["worklists_empty"]))
                         if len(sample_model) < 3 and j == len(out) - 1:
                             sample_model.append({"history": h, "model_last": m, "impl_last": [istat, rec["obs"]]})
@@ -232,6 +243,7 @@ def run(ctx):
             ctx.notes.append(f"model evaluation failed: {e}")
             model_ok = False
 
+    ctx.notes.append(f"total before decision: {_t.time() - t_a:.1f}s")
     # ---- decide on proofs
     if not info["ok"]:
         if not ctx.violations and not ctx.known_hits:
